@@ -645,8 +645,28 @@ def check(prop, tier, pat=None, keep=False):
                     new.append(fo)
             if new:
                 violations.append((o, new))
+    # property-specific supporting static scan (C20)
+    extra = None
+    if prop == "C20":
+        import c20scan
+        extra = c20scan.run_for_check()
+        for w in extra["new_writes"]:
+            dest = os.path.join(OUTROOT, "replay", prop, "static_scan")
+            os.makedirs(dest, exist_ok=True)
+            path = os.path.join(dest, "replay.json")
+            json.dump({"obligation": "no instruction of the library writes an object of static storage duration", "write": w,
+                       "verifier_output": "goto-instrument --show-goto-functions: ASSIGN %s in %s (%s)" % (w["lhs"], w["function"], w["file"]),
+                       "native_reproduced": None}, open(path, "w"), indent=1)
+            print("FAILED-OBLIGATION property=C20 job=static_scan written static object %s in %s (%s)" % (w["static"], w["function"], w["file"]))
+            print("VIOLATION property=C20 replay=%s no-failing-input-found" % path)
+        if extra["error"]:
+            print("UNDECIDED property=C20 job=static_scan %s" % extra["error"])
     # report
     rc = 0
+    if extra and extra["new_writes"]:
+        rc = 1
+    if extra and extra["error"]:
+        rc = 2
     for k, o, fo in known_hits:
         print("KNOWN-FINDING: property=%s job=%s obligation=%s %s" % (prop, o["job"], fo["property"], k.get("what", "")))
     # known-failed obligations are not counted as discharged but do not make the run fail
@@ -676,7 +696,7 @@ def check(prop, tier, pat=None, keep=False):
         rc = 2
     # evidence
     write_evidence(prop, tier, jobs, outs, n_obl, n_dis, bounded_jobs, known_hits, violations, undecided,
-                   enforced_anywhere, time.time() - t0, scan_assumptions(jobs))
+                   enforced_anywhere, time.time() - t0, scan_assumptions(jobs), extra)
     ok = sum(1 for o in outs if o["status"] == "ok")
     print("SUMMARY property=%s tier=%s jobs=%d ok=%d failed=%d undecided=%d obligations=%d discharged=%d wall=%.1fs" % (
         prop, tier, len(outs), ok, sum(1 for o in outs if o["status"] == "failed"), len(undecided), n_obl, n_dis, time.time() - t0))
@@ -696,7 +716,7 @@ def prop_meta(prop):
 
 
 def write_evidence(prop, tier, jobs, outs, n_obl, n_dis, bounded_jobs, known_hits, violations, undecided,
-                   enforced_anywhere, wall, scanned):
+                   enforced_anywhere, wall, scanned, extra=None):
     meta = prop_meta(prop)
     funcs = sorted(set(f for j in jobs for f in j.enforce))
     replaced = {}
@@ -740,8 +760,10 @@ def write_evidence(prop, tier, jobs, outs, n_obl, n_dis, bounded_jobs, known_hit
         },
         "assumptions": STANDING_ASSUMPTIONS + meta.get("assumptions", []) + scanned,
         "wall_s": round(wall, 2),
-        "violations": len(violations),
+        "violations": len(violations) + (len(extra["new_writes"]) if extra else 0),
     }
+    if extra:
+        ev["coverage"]["static_scan"] = extra["summary"]
     os.makedirs(os.path.join(OUTROOT, "evidence"), exist_ok=True)
     json.dump(ev, open(os.path.join(OUTROOT, "evidence", prop + ".json"), "w"), indent=1)
 
